@@ -30,7 +30,34 @@ fn small_vocab_title(src: &mut Source, vocab: &[String]) -> String {
     s
 }
 
+/// |store| == 10 * limit exactly, every record sharing a gram with the query (the candidate cap
+/// is met to the record)
+fn gen_exact_cap_world(src: &mut Source) -> RankWorld {
+    let lang = gen_lang(src);
+    let plain = plain_letters(lang);
+    let common: String = (0..src.range(2, 5)).map(|_| plain[src.below(6)]).collect();
+    let others: Vec<String> = (0..src.range(2, 4)).map(|_| (0..src.range(1, 5)).map(|_| plain[6 + src.below(8)]).collect()).collect();
+    let limit = src.range(1, 4);
+    let nrec = 10 * limit;
+    let ratings = gen_distinct_ratings(src, nrec);
+    let recs: Vec<Rec> = (0..nrec)
+        .map(|k| {
+            let t = if src.chance(1, 2) { format!("{} {}", common, src.pick(&others)) } else { format!("{} {}", src.pick(&others), common) };
+            (k + 1, t, ratings[k])
+        })
+        .collect();
+    let cc: Vec<char> = common.chars().collect();
+    let queries = vec![common.clone(), cc[..1 + src.below(cc.len())].iter().collect()];
+    let mut perm: Vec<usize> = (0..nrec).collect();
+    shuffle(src, &mut perm);
+    let picks = (0..16).map(|_| src.below(1 << 16) as u16).collect();
+    RankWorld { lang, recs, limit, queries, distinct: true, perm, picks }
+}
+
 fn gen_rank_world(src: &mut Source, force_distinct: bool, fit_cap: bool) -> RankWorld {
+    if src.chance(1, 12) {
+        return gen_exact_cap_world(src);
+    }
     let lang = gen_lang(src);
     let vocab: Vec<String> = {
         let n = src.range(2, 7);
@@ -313,6 +340,7 @@ impl Case for C07Case {
             ctx.label_if(w.recs.iter().any(|r| r.2 >= 1usize << 31), "ratings>=2^31");
             ctx.label_if({ let mut ids: Vec<usize> = w.recs.iter().map(|r| r.0).collect(); ids.sort(); ids.dedup(); ids.len() < w.recs.len() }, "duplicate-ids");
             ctx.label_if(n > 100, "store>100");
+            ctx.label_if(n == 10 * w.limit, "store==10x-limit");
             if hits.len() >= 3 && !identity {
                 ctx.nontrivial();
             }
